@@ -95,4 +95,210 @@ theorem fwd_sol (fuel k : Nat) (rem done : List Row) (piv : List Nat) (x : Row) 
           · intro ⟨⟨a, b⟩, c⟩; exact ⟨b, hs.mp ⟨a, (sol_elim k p rest' x a).mp c⟩⟩
           · intro ⟨b, c⟩; obtain ⟨a, d⟩ := hs.mpr c; exact ⟨⟨a, b⟩, (sol_elim k p rest' x a).mpr d⟩
 
+
+/-! ### entries, lengths, extensionality -/
+
+@[simp] theorem entry_nil (k : Nat) : entry [] k = false := by simp [entry]
+@[simp] theorem entry_cons_zero (a : Bool) (as : Row) : entry (a :: as) 0 = a := by simp [entry]
+@[simp] theorem entry_cons_succ (a : Bool) (as : Row) (k : Nat) :
+    entry (a :: as) (k+1) = entry as k := by simp [entry]
+
+theorem entry_of_length_le {r : Row} {k : Nat} (h : r.length ≤ k) : entry r k = false := by
+  induction r generalizing k with
+  | nil => simp
+  | cons a as ih =>
+    cases k with
+    | zero => simp at h
+    | succ k => simp at h; simp [ih h]
+
+theorem lt_length_of_entry {r : Row} {k : Nat} (h : entry r k = true) : k < r.length := by
+  apply Nat.lt_of_not_le
+  intro hle
+  rw [entry_of_length_le hle] at h
+  cases h
+
+theorem entry_addRow (a b : Row) (k : Nat) :
+    entry (addRow a b) k = xor (entry a k) (entry b k) := by
+  induction a generalizing b k with
+  | nil => cases b <;> simp [addRow]
+  | cons a as ih =>
+    cases b with
+    | nil => simp [addRow]
+    | cons b bs =>
+      cases k with
+      | zero => simp [addRow]
+      | succ k => simp [addRow, ih]
+
+theorem length_addRow (a b : Row) : (addRow a b).length = max a.length b.length := by
+  induction a generalizing b with
+  | nil => cases b <;> simp [addRow]
+  | cons a as ih =>
+    cases b with
+    | nil => simp [addRow]
+    | cons b bs => simp [addRow, ih]
+
+theorem length_addRow_eq {a b : Row} {n : Nat} (ha : a.length = n) (hb : b.length = n) :
+    (addRow a b).length = n := by
+  rw [length_addRow, ha, hb]; simp
+
+theorem row_ext {a b : Row} (hl : a.length = b.length) (h : ∀ j, entry a j = entry b j) :
+    a = b := by
+  induction a generalizing b with
+  | nil => cases b with
+    | nil => rfl
+    | cons _ _ => simp at hl
+  | cons a as ih =>
+    cases b with
+    | nil => simp at hl
+    | cons b bs =>
+      have h0 := h 0
+      simp at h0
+      have := ih (b := bs) (by simpa using hl) (fun j => by simpa using h (j+1))
+      rw [h0, this]
+
+theorem entry_replicate_false (n k : Nat) : entry (List.replicate n false) k = false := by
+  induction n generalizing k with
+  | zero => simp
+  | succ n ih =>
+    cases k with
+    | zero => simp [List.replicate_succ]
+    | succ k => simp [List.replicate_succ, ih]
+
+theorem eq_replicate_of_entries {x : Row} {n : Nat} (hl : x.length = n)
+    (h : ∀ j, entry x j = false) : x = List.replicate n false := by
+  apply row_ext
+  · simp [hl]
+  · intro j; rw [h j, entry_replicate_false]
+
+theorem entry_map_range (n : Nat) (f : Nat → Bool) (j : Nat) :
+    entry ((List.range n).map f) j = if j < n then f j else false := by
+  unfold entry
+  by_cases h : j < n
+  · simp [List.getD_eq_getElem?_getD, h]
+  · simp [List.getD_eq_getElem?_getD, h]
+
+/-! ### xor-sums over index lists -/
+
+/-- xor of `f j` over the indices `j ∈ l` -/
+def xsum (l : List Nat) (f : Nat → Bool) : Bool := l.foldr (fun j acc => xor (f j) acc) false
+
+@[simp] theorem xsum_nil (f : Nat → Bool) : xsum [] f = false := rfl
+@[simp] theorem xsum_cons (j : Nat) (l : List Nat) (f : Nat → Bool) :
+    xsum (j :: l) f = xor (f j) (xsum l f) := rfl
+
+theorem xsum_append (l₁ l₂ : List Nat) (f : Nat → Bool) :
+    xsum (l₁ ++ l₂) f = xor (xsum l₁ f) (xsum l₂ f) := by
+  induction l₁ with
+  | nil => simp
+  | cons j l ih => simp [ih]
+
+theorem xsum_congr {l : List Nat} {f g : Nat → Bool} (h : ∀ j ∈ l, f j = g j) :
+    xsum l f = xsum l g := by
+  induction l with
+  | nil => rfl
+  | cons j l ih =>
+    simp only [xsum_cons]
+    rw [h j (by simp), ih (fun j hj => h j (by simp [hj]))]
+
+theorem xsum_false {l : List Nat} {f : Nat → Bool} (h : ∀ j ∈ l, f j = false) :
+    xsum l f = false := by
+  induction l with
+  | nil => rfl
+  | cons j l ih =>
+    simp only [xsum_cons]
+    rw [h j (by simp), ih (fun j hj => h j (by simp [hj]))]; rfl
+
+theorem xsum_xor (l : List Nat) (f g : Nat → Bool) :
+    xsum l (fun j => xor (f j) (g j)) = xor (xsum l f) (xsum l g) := by
+  induction l with
+  | nil => rfl
+  | cons j l ih =>
+    simp only [xsum_cons, ih]
+    cases f j <;> cases g j <;> cases xsum l f <;> cases xsum l g <;> rfl
+
+theorem xsum_map (l : List Nat) (g : Nat → Nat) (f : Nat → Bool) :
+    xsum (l.map g) f = xsum l (fun j => f (g j)) := by
+  induction l with
+  | nil => rfl
+  | cons j l ih => simp [ih]
+
+theorem xsum_filter (l : List Nat) (P : Nat → Bool) (f : Nat → Bool)
+    (h : ∀ j ∈ l, f j = true → P j = true) : xsum (l.filter P) f = xsum l f := by
+  induction l with
+  | nil => rfl
+  | cons j l ih =>
+    have ih' := ih (fun j hj => h j (by simp [hj]))
+    by_cases hp : P j = true
+    · simp [List.filter_cons, hp, ih']
+    · have hf : f j = false := by
+        cases hfj : f j with
+        | false => rfl
+        | true => exact absurd (h j (by simp) hfj) hp
+      simp [List.filter_cons, hp, ih', hf]
+
+theorem dotB_eq_xsum (r y : Row) (n : Nat) (h : r.length ≤ n) :
+    dotB r y = xsum (List.range n) (fun j => entry r j && entry y j) := by
+  induction r generalizing y n with
+  | nil => rw [dotB_nil_left]; symm; apply xsum_false; intro j _; simp
+  | cons a as ih =>
+    cases n with
+    | zero => simp at h
+    | succ n =>
+      rw [List.range_succ_eq_map, xsum_cons, xsum_map]
+      cases y with
+      | nil => simp [dotB]; rw [xsum_false]; intro j _; rfl
+      | cons b bs =>
+        simp only [dotB, entry_cons_zero]
+        rw [ih bs n (by simpa using h)]
+        simp
+
+/-- a sum with at most one non-zero term -/
+theorem xsum_range_single (n c : Nat) (f : Nat → Bool) (hc : c < n)
+    (h : ∀ j, j < n → j ≠ c → f j = false) : xsum (List.range n) f = f c := by
+  induction n with
+  | zero => omega
+  | succ n ih =>
+    rw [List.range_succ, xsum_append]
+    by_cases hcn : c = n
+    · subst hcn
+      rw [xsum_false (fun j hj => h j (by simp at hj; omega) (by simp at hj; omega))]
+      simp
+    · rw [ih (by omega) (fun j hj hjc => h j (by omega) hjc)]
+      simp [h n (by omega) (fun h => hcn h.symm)]
+
+theorem dotB_single (r y : Row) (c : Nat) (h : ∀ j, j ≠ c → (entry r j && entry y j) = false) :
+    dotB r y = (entry r c && entry y c) := by
+  rw [dotB_eq_xsum r y (max r.length (c+1)) (by omega)]
+  exact xsum_range_single _ c _ (by omega) (fun j _ hj => h j hj)
+
+theorem dotB_zero_left (r y : Row) (h : ∀ j, entry r j = false) : dotB r y = false := by
+  rw [dotB_eq_xsum r y r.length (Nat.le_refl _)]
+  apply xsum_false; intro j _; simp [h j]
+
+theorem dotB_zero_right (r y : Row) (h : ∀ j, entry y j = false) : dotB r y = false := by
+  rw [dotB_eq_xsum r y r.length (Nat.le_refl _)]
+  apply xsum_false; intro j _; simp [h j]
+
+/-- `dotB` is additive in the second argument as well (no length conditions: `addRow` pads) -/
+theorem dotB_addRow_right (r a b : Row) : dotB r (addRow a b) = xor (dotB r a) (dotB r b) := by
+  rw [dotB_eq_xsum r _ r.length (Nat.le_refl _), dotB_eq_xsum r a r.length (Nat.le_refl _),
+    dotB_eq_xsum r b r.length (Nat.le_refl _), ← xsum_xor]
+  apply xsum_congr; intro j _
+  rw [entry_addRow]
+  cases entry r j <;> cases entry a j <;> cases entry b j <;> rfl
+
+/-- `dotB` only depends on the entries -/
+theorem dotB_congr_right (r y y' : Row) (h : ∀ j, j < r.length → entry y j = entry y' j) :
+    dotB r y = dotB r y' := by
+  rw [dotB_eq_xsum r y r.length (Nat.le_refl _), dotB_eq_xsum r y' r.length (Nat.le_refl _)]
+  apply xsum_congr; intro j hj
+  rw [h j (by simpa using hj)]
+
+theorem dotB_congr_left (r r' y : Row) (h : ∀ j, entry r j = entry r' j) :
+    dotB r y = dotB r' y := by
+  rw [dotB_eq_xsum r y (max r.length r'.length) (by omega),
+    dotB_eq_xsum r' y (max r.length r'.length) (by omega)]
+  apply xsum_congr; intro j hj
+  rw [h j]
+
 end Sageopt.GF2
